@@ -80,6 +80,8 @@ def make_case(seed, index, tier):
                 item = item_no if kind != 'prioritystore' else [rng.randint(0, 3), item_no]
                 if kind == 'store' and rng.random() < 0.15:
                     item = 'NONE'       # the item None (a valid item), written as a marker
+                elif kind == 'store' and rng.random() < 0.12:
+                    item = 'ERR%d' % item_no    # an exception instance kept as an item (data)
                 elif kind != 'prioritystore' and item_no > 1 and rng.random() < 0.25:
                     # a twin: equal to (==) an earlier item, yet a different object that
                     # filters can tell apart - the store must hand out *the* matching item
@@ -168,8 +170,18 @@ def filter_for(name, clock):
     return FILTERS[name]
 
 
+def real_item(marker):
+    if marker == 'NONE':
+        return None
+    if isinstance(marker, str) and marker.startswith('ERR'):
+        return LookupError(marker)
+    return marker
+
+
 def ident(item):
     """items are compared by identity, not equality: 2 and 2.0 are different items"""
+    if isinstance(item, LookupError) and item.args and str(item.args[0]).startswith('ERR'):
+        return repr(item.args[0])       # (an exception instance that is an item: its marker)
     return item if item is None or isinstance(item, (tuple, list)) else repr(item)
 
 
@@ -556,7 +568,7 @@ def run_case(case):
                 elif kind == 'prioritystore':
                     request = res.put(PriorityItem(op['item'][0], op['item'][1]))
                 else:
-                    request = res.put(None if op['item'] == 'NONE' else op['item'])
+                    request = res.put(real_item(op['item']))
             elif what == 'get':
                 if kind == 'container':
                     request = res.get(op['amount'])
